@@ -34,13 +34,20 @@ from lv.props import common
 ID = 'C19'
 BUDGET = {'quick': 400, 'thorough': 12000}        # base programs; <= 6 corruptions each
 WALL = {'quick': 3000, 'thorough': 14400}      # backstop only (shared machine)
-RULE = ('valid base programs from four profiles (core and aggregation profile of the typed '
-        'generator lv/gen.py, recursive programs of lv/recgen.py, core programs extended '
-        'with a functor application G := F(A: B) over a fresh argument table) x the fixed '
-        'catalogue K1..K10 of single-point corruptions (fresh variable in head / '
-        'comparison / negation, aggregation without distinct, inconsistent distinct, '
-        'recursive component without base rules, functor argument outside the dependency '
-        'closure, annotation of an undefined predicate, one bracket deleted or inserted, '
+RULE = ('valid base programs from five profiles (core and aggregation profile of the typed '
+        'generator lv/gen.py; `inject`: chains of single-rule predicates that the compiler '
+        'injects into their callers; recursive programs of lv/recgen.py, half of them with '
+        'an observer predicate outside the component that reads a member under a negation '
+        '/ next to another rule / as its only rule; core programs extended with a functor '
+        'application G := F(A: B) over a fresh argument table) x the fixed '
+        'catalogue K1..K10 of single-point corruptions (variable fresh in the rule put into '
+        'head / comparison / negation - for body corruptions of a predicate with a direct '
+        'caller mostly a name that is BOUND IN THE CALLING RULE, compiled through that '
+        'caller; aggregation without distinct, inconsistent distinct, '
+        'recursive component without base rules - compiled for a member or for the '
+        'observer, with plain names or names containing `_`; functor argument outside the '
+        'dependency closure; annotation of an undefined predicate - fresh names and typos '
+        'of defined names, with and without `_`; one bracket deleted or inserted, '
         'closing quote deleted); per program up to 6 applicable operators (the profile-'
         'specific K6 / K7 always) are applied once each at a Hypothesis-drawn site, and the '
         'predicate that contains the corruption (or, for body corruptions, a direct caller; '
@@ -55,12 +62,17 @@ ASSUMPTIONS = ['invalidity is established by our own bookkeeping over the lv.mod
                'by the compiler',
                'identification is the disjunction the statement gives (rule, variable or '
                'predicate); the exact wording of messages is not checked',
-               'errors are raised lazily per compiled predicate: a corrupted head field is '
-               'compiled through the corrupted predicate itself or its functor-made copy (an '
-               'injected callee contributes only the columns its caller asks for), a fresh '
+               'a corrupted head field is compiled through the corrupted predicate itself or its '
+               'functor-made copy, not through a caller: a head variable of a single-rule '
+               'predicate is a parameter that the calling rule may bind or ignore (the idiom '
+               'of function-like predicates, `P(a, b) :- R(a)` called as P(x, 3) or P(x) is '
+               'legal), so the rule is invalid as a table, not as a callee; a fresh '
                'variable is put into a combine only if the value of the combine provably '
                'reaches the SQL (an assignment to a variable used nowhere is dropped by the '
                'compiler together with its right-hand side; not claimed either way)',
+               'K6: when the only rule of the observer reads the emptied component the observer '
+               'is itself "proven to be empty"; the compiler names an arbitrary one of the '
+               'empty predicates (set order), naming the observer is accepted',
                'dialect-library parse memoised per process (filled by the real parser)']
 
 OPS = ('K1', 'K2', 'K3', 'K4', 'K5', 'K6', 'K7', 'K8', 'K9', 'K10')
@@ -972,6 +984,10 @@ def default_target(prog, op, params, hint, rng=None):
         if rng is not None:
             # a head field / the value of a combine reaches a caller only if the caller
             # asks for that column; body constraints always do
+            # a head variable of a single-rule predicate is a parameter its caller may
+            # bind (`Q(x) :- P(x, 3)` with `P(a, b) :- R(a)` is legal): K1 is decided on
+            # the predicate itself; so is the value of a combine (reaches a caller only
+            # through the head).  Body constraints are compiled into every caller.
             lazy = op == 'K1' or (op == 'K2' and params.get('mode') == 'in_combine')
             return choose_target(rng, prog, pred, allow_caller=not lazy)
         return 'self', pred
@@ -1077,6 +1093,7 @@ def judge(prog, op, params, kind_target=None):
     if op == 'K6' and res['status'] == 'fail' and n1_class(prog, params) and \
             res['bucket'].startswith('accepted_invalid:'):
         res['bucket'] = N1_BUCKET
+
     return res
 
 
@@ -1192,10 +1209,10 @@ def shard(ctx, col):
                 col.label('no_site:%s:%s' % (op, prog['profile']))
                 continue
             done += 1
-            if params.get('excluded'):
-                col.exclude(params.pop('excluded'))
             params = model.prog_to_json(params)
             tkind, target = default_target(prog, op, params, None, rng)
+            if params.get('excluded'):
+                col.exclude(params.pop('excluded'))
             ren = k6_mapping(params) if op == 'K6' else {}
             bkey = (target, bool(ren))
             if bkey not in base_status:
